@@ -503,3 +503,30 @@ Proof.
   - intros H. replace x with (1 + Z.of_nat (Z.to_nat (x - 1))) by lia. replace y with (1 + Z.of_nat (Z.to_nat (y - 1))) by lia.
     apply (pairs_map_seq_in (fun i => 1 + Z.of_nat i)); lia.
 Qed.
+
+(* ---------- a decoded selection is a filter of the index list ---------- *)
+Definition pair_eqb (e f : Z * Z) : bool := (fst e =? fst f) && (snd e =? snd f).
+Lemma pair_eqb_spec e f : pair_eqb e f = true <-> e = f.
+Proof. destruct e, f. unfold pair_eqb. cbn. split; [intros H; f_equal; lia|intros H; inversion H; lia]. Qed.
+Fixpoint zlist_eqb (l1 l2 : list Z) : bool :=
+  match l1, l2 with
+  | [], [] => true
+  | x :: t1, y :: t2 => (x =? y) && zlist_eqb t1 t2
+  | _, _ => false
+  end.
+Lemma zlist_eqb_spec : forall l1 l2, zlist_eqb l1 l2 = true <-> l1 = l2.
+Proof.
+  induction l1 as [|x t IH]; destruct l2 as [|y t2]; cbn; try (split; [discriminate|congruence]); [tauto|].
+  rewrite andb_true_iff, IH. split; [intros [H1 H2]; f_equal; [lia|assumption]|intros H; inversion H; split; [lia|reflexivity]].
+Qed.
+
+Lemma sel_as_filter {I} (eqb : I -> I -> bool) a (t : list (I * Z)) :
+  (forall x y, eqb x y = true <-> x = y) -> NoDup (map fst t) ->
+  sel a t = filter (fun x => existsb (eqb x) (sel a t)) (map fst t).
+Proof.
+  intros Heq Hnd. rewrite filter_map_comm. unfold sel at 1. f_equal. apply filter_ext_in.
+  intros [x v] Hin. cbn [fst snd]. destruct (a v) eqn:Ea.
+  - symmetry. apply existsb_exists. exists x. split; [apply In_sel; eauto|now apply Heq].
+  - symmetry. apply not_true_is_false. intros H. apply existsb_exists in H as [y [Hy Hxy]]. apply Heq in Hxy. subst y.
+    apply In_sel in Hy as [w [Hw Ha]]. rewrite (NoDup_fst_unique t x v w Hnd Hin Hw) in Ea. congruence.
+Qed.
